@@ -137,6 +137,41 @@ for cfg in configs:
         R.check("write-read cycle returns an equal structure", f"{flavour} {'stack' if models else 'array'}", desc, run)
 
 
+def snapshot_case(cfg, flavour):
+    """set_structure() takes a snapshot: changing the caller's arrays in place afterwards must not change the file"""
+    a = build(*cfg)
+    orig = a.copy()
+    f = pdbx.CIFFile() if flavour == "cif" else pdbx.BinaryCIFFile()
+    pdbx.set_structure(f, a, include_bonds=a.bonds is not None)
+    a.coord += 10.0
+    a.res_id += 7
+    a.chain_id[:] = "Z"
+    if "b_factor" in a.get_annotation_categories():
+        a.b_factor += 1.0
+    if flavour == "cif":
+        g = pdbx.CIFFile.deserialize(f.serialize())
+    else:
+        s = io.BytesIO()
+        f.write(s)
+        s.seek(0)
+        g = pdbx.BinaryCIFFile.read(s)
+    model = None if isinstance(a, struc.AtomArrayStack) else 1
+    with warnings.catch_warnings():
+        warnings.simplefilter("ignore")
+        b = pdbx.get_structure(g, model=model, extra_fields=list(cfg[-1]), include_bonds=orig.bonds is not None)
+    r = same(orig, b, cfg[-1])
+    return None if r is None else "after in-place changes of the written array: " + r
+
+
+_snap = {}
+for cfg in configs:
+    _snap.setdefault((cfg[1], cfg[5], cfg[6]), cfg)
+for cfg in _snap.values():
+    for flavour in ("cif", "bcif"):
+        R.check("the file holds the structure as it was when written (text and binary form alike)", f"snapshot {flavour} {'stack' if cfg[1] else 'array'}",
+                {"residues": cfg[0], "models": cfg[1], "flavour": flavour}, lambda cfg=cfg, flavour=flavour: snapshot_case(cfg, flavour))
+
+
 # string annotations with special characters: text and binary flavour must agree with the input
 SPECIAL = ["O5'", "5' cap", 'say "x"', "a b", "_lead", "#x", ";x", "data_1", "it's a", "N"]
 
